@@ -8,6 +8,7 @@ pub fn dispatch(mode: &str, engine: &str, rest: &[String]) -> anyhow::Result<()>
         ("record", "sem") => sem::record(rest),
         ("replay", "sem") => sem::replay(rest),
         ("runsrc", "sem") => sem::runsrc(rest),
+        ("replay", "sess") => sem::replay_sessions(rest),
         _ => anyhow::bail!("unknown mode/engine {} {}", mode, engine),
     }
 }
